@@ -61,6 +61,22 @@ def make_pair(r, an, bn, mode):
     if mode == 'b=2g':
         g = gen.nat(r, bn); return g * (2 * gen.nat(r, max(1, an - bn)) + 1), 2 * g
     if mode == 'zero': return r.choice([0, gen.nat(r, an)]), r.choice([0, 0, gen.nat(r, bn)])
+    if mode == 'mersa':
+        # A all ones, B random of the same limb count (small quotients, so the half-gcd succeeds): the first hgcd_matrix_apply folds an all-ones A
+        return (1 << (64 * an)) - r.choice([1, 1, 3, r.getrandbits(40) | 1]), gen.nat(r, an, 'rand') >> r.randint(0, 2)
+    if mode == 'mersb':
+        # B all ones below a random A with the same number of limbs
+        k = 64 * an - r.randint(1, 3)
+        return (1 << k) | r.getrandbits(k), (1 << k) - r.choice([1, 1, 3, r.getrandbits(40) | 1])
+    if mode.startswith('mers'):
+        # operands with very long runs of ones (2^k - c): the wrap-around folds of hgcd_matrix_apply (mod B^modn - 1) carry out only for such data
+        g = r.choice([1, 1, gen.nat(r, 1) | 1, (1 << r.randint(2, 200)) - 1]) if mode == 'mers' else gen.nat(r, max(1, min(an, bn) // 3), 'ones')
+        ka = 64 * an - r.randint(0, 63) - g.bit_length(); kb = 64 * bn - r.randint(0, 63) - g.bit_length()
+        a = (1 << max(ka, 2)) - r.choice([1, 1, 3, r.getrandbits(60) | 1, (1 << (ka // 2)) + 1])
+        b = (1 << max(kb, 2)) - r.choice([1, 1, 1, 5, r.getrandbits(60) | 1])
+        return a * g, b * g
+    if mode == 'longruns':
+        return gen.nat(r, an, 'runs') | (((1 << (64 * (an // 2))) - 1) << (64 * (an // 4))), gen.nat(r, bn, 'runs') | (((1 << (64 * (bn // 2))) - 1) << (64 * (bn // 3)))
     raise ValueError(mode)
 
 def sizes(th, tier):
@@ -85,10 +101,21 @@ def sizes(th, tier):
                 for d in (0, an // 3): S.append((an, an - d))
     return S
 
+def huge_sizes(th, tier):
+    """operand sizes that make mpn_gcd / mpn_gcdext call mpn_hgcd_reduce above HGCD_REDUCE_THRESHOLD (hgcd_appr + hgcd_matrix_apply with folding)"""
+    hr = th.get('HGCD_REDUCE_THRESHOLD')
+    if not hr or hr > 12000: return []
+    base = [3 * hr + 7, 3 * hr + 300] if tier == 'quick' else [3 * hr + 7, 3 * hr + 300, 4 * hr + 1, 6 * hr + 11]
+    return [(an, an - d) for an in base for d in ((0, 40) if tier == 'quick' else (0, 1, 40, an // 5))]
+
 def specs(rng, tier, wid, nw, env):
     S = sizes(env.th, tier)
     S.sort(key=lambda s: -s[0])
     k = 0
+    for (an, bn) in huge_sizes(env.th, tier):
+        for m in ('mersa', 'mersb', 'mers', 'mersg', 'longruns', 'rand'):
+            k += 1
+            if k % nw == wid: yield ('z', an, bn, m, 0, rng.getrandbits(48))
     for (an, bn) in S:
         modes = MODES if (an <= 40 or tier != 'quick') else ['rand', 'fib', 'cf-B', 'hugeg', 'cf-huge']
         if an > 3000: modes = ['rand', 'cf-B', 'hugeg']
@@ -118,14 +145,25 @@ def build(spec, env):
         inv = abs(b) > 1
         cmds.append('c mpz_invert Z3 Z1 Z2' if inv else 'ping')
         # the symbol over the same operand pairs: the sub-quadratic Jacobi code only starts at GCD_DC_THRESHOLD limbs
-        cmds.append('c mpz_jacobi Z1 Z2')
+        huge = max(an, bn) > 5000       # the Python symbol / cofactor-normalisation models are quadratic with a large constant: judged by identities there
+        cmds.append('c mpz_jacobi Z1 Z2' if not huge else 'ping')
         big = max(an, bn) > 400
-        def check(rep, a=a, b=b, mode=mode, inv=inv, big=big):
+        def check(rep, a=a, b=b, mode=mode, inv=inv, big=big, huge=huge):
             out = []; g = math.gcd(a, b)
             sz = 'an=%d bn=%d mode=%s' % (gen.nlimbs(a), gen.nlimbs(b), mode)
             v, _ = split_reply(rep[2])
             if I(v[0]) != g: out.append(('mpz_gcd:wrong', sz))
             v, _ = split_reply(rep[3]); gg, s, t = I(v[0]), I(v[1]), I(v[2])
+            if huge:
+                if gg != g or a * s + b * t != g: out.append(('mpz_gcdext:identity', sz + ' a=%s b=%s' % (hx(a)[:60], hx(b)[:60])))
+                elif abs(a) != abs(b) and g and (2 * g * abs(s) > abs(b) or 2 * g * abs(t) > abs(a)): out.append(('mpz_gcdext:cofactor-bound', sz))
+                v, _ = split_reply(rep[4])
+                if I(v[0]) != abs(a * b) // g: out.append(('mpz_lcm:wrong', sz))
+                if inv:
+                    v, _ = split_reply(rep[5]); ex = g == 1
+                    if (int(v[0]) != 0) != ex: out.append(('mpz_invert:existence', sz))
+                    elif ex and not (0 <= I(v[1]) < abs(b) and (a * I(v[1])) % abs(b) == 1): out.append(('mpz_invert:value', sz))
+                return out
             if gg != g or a * s + b * t != g: out.append(('mpz_gcdext:identity', sz + ' a=%s b=%s' % (hx(a)[:60], hx(b)[:60])))
             else:
                 G, S, T = models.xgcd_min(a, b)
@@ -214,3 +252,11 @@ def build(spec, env):
             return out
         return Case(cmds, check, 2, ('ui', mode, an, neg, u.bit_length()), trivial=(a == 0 or u == 0))
     raise ValueError(kind)
+
+HOOKS = {60: 'hgcd_matrix_apply (above HGCD_REDUCE_THRESHOLD)', 61: 'hgcd_matrix_apply wrap-around fold', 62: 'fold of A carries out', 63: 'fold of B carries out',
+         64: 'mpn_hgcd_appr', 65: 'mpn_gcd hgcd step', 66: 'mpn_gcdext hgcd step', 67: 'mpn_gcd subdiv fallback step'}
+def post(tier, agg, cov):
+    hits = agg.get('hits', {})
+    cov['gcd_regimes_observed'] = {HOOKS[k]: hits.get(k, 0) for k in HOOKS}
+    missing = [HOOKS[k] for k in HOOKS if not hits.get(k)]
+    if missing: return {'inconclusive': 'gcd regimes never reached (hook counters zero): %s' % missing}
